@@ -25,19 +25,21 @@ import (
 )
 
 type Tx struct {
-	K     string   `json:"k"`             // ibtp | transfer | invoke
-	Src   string   `json:"src,omitempty"` // "chainA:svc1" (local) or "9999:chainX:svcX" (other hub)
-	Dst   string   `json:"dst,omitempty"`
-	Idx   uint64   `json:"idx,omitempty"`
-	Typ   string   `json:"typ,omitempty"`   // REQ | OK | FAIL | RB
-	T     int64    `json:"t,omitempty"`     // timeout height (relative)
-	Proof string   `json:"proof,omitempty"` // ok | bad | none
-	GDst  []string `json:"gdst,omitempty"`  // group: destination services
-	GIdx  []uint64 `json:"gidx,omitempty"`  // group: indices
-	From  string   `json:"from,omitempty"`  // sender account
-	C     string   `json:"c,omitempty"`
-	M     string   `json:"m,omitempty"`
-	Args  []string `json:"args,omitempty"`
+	K        string   `json:"k"`             // ibtp | transfer | invoke
+	Src      string   `json:"src,omitempty"` // "chainA:svc1" (local) or "9999:chainX:svcX" (other hub)
+	Dst      string   `json:"dst,omitempty"`
+	Idx      uint64   `json:"idx,omitempty"`
+	Typ      string   `json:"typ,omitempty"`   // REQ | OK | FAIL | RB
+	T        int64    `json:"t,omitempty"`     // timeout height (relative)
+	Proof    string   `json:"proof,omitempty"` // ok | bad | none
+	GDst     []string `json:"gdst,omitempty"`  // group: destination services
+	GIdx     []uint64 `json:"gidx,omitempty"`  // group: indices
+	From     string   `json:"from,omitempty"`  // sender account
+	C        string   `json:"c,omitempty"`
+	M        string   `json:"m,omitempty"`
+	Args     []string `json:"args,omitempty"`
+	Role     string   `json:"role,omitempty"`     // surface calls: outsider | otheradmin | govadmin
+	Promoted bool     `json:"promoted,omitempty"` // surface calls: method is promoted / not an entry point
 }
 
 type Step struct {
@@ -50,29 +52,31 @@ type Step struct {
 }
 
 type Plan struct {
-	Name   string   `json:"name"`
-	Audit  bool     `json:"audit"`
-	Seed   int64    `json:"seed"`
-	Proof  string   `json:"prooftype"`
-	Chains []string `json:"chains"` // chains to register; every chain gets services svc1..svcK
-	NSvc   int      `json:"nsvc"`
-	Unord  []string `json:"unordered,omitempty"` // services registered as unordered
-	Black  map[string]string `json:"black,omitempty"` // service -> blacklisted full source id
-	Steps  []Step   `json:"steps"`
+	Name    string            `json:"name"`
+	Audit   bool              `json:"audit"`
+	Seed    int64             `json:"seed"`
+	Proof   string            `json:"prooftype"`
+	Chains  []string          `json:"chains"` // chains to register; every chain gets services svc1..svcK
+	NSvc    int               `json:"nsvc"`
+	Unord   []string          `json:"unordered,omitempty"` // services registered as unordered
+	Black   map[string]string `json:"black,omitempty"`     // service -> blacklisted full source id
+	Steps   []Step            `json:"steps"`
+	FreeGas bool              `json:"freegas,omitempty"` // gas price 0: callers never run out of funds (surface scenarios)
 }
 
 type runner struct {
-	pair  *lockstep.Pair
-	plan  *Plan
-	out   *os.File
-	seq   int
-	ids   []string // every ibtp id ever submitted
-	idset map[string]bool
-	gids  map[string]bool
-	svcs  []string // local services "chain:svc"
-	reps  []*core.Node // extra replicas fed with the very same blocks (C01)
-	rrng  *rand.Rand
-	nrep  int
+	pair         *lockstep.Pair
+	plan         *Plan
+	out          *os.File
+	seq          int
+	ids          []string // every ibtp id ever submitted
+	idset        map[string]bool
+	gids         map[string]bool
+	svcs         []string     // local services "chain:svc"
+	reps         []*core.Node // extra replicas fed with the very same blocks (C01)
+	rrng         *rand.Rand
+	nrep         int
+	lastProposal string
 }
 
 func digest(res *core.BlockResult) map[string]interface{} {
@@ -179,8 +183,17 @@ func full(n *core.Node, s string) string {
 
 var typOf = map[string]pb.IBTP_Type{"REQ": pb.IBTP_INTERCHAIN, "OK": pb.IBTP_RECEIPT_SUCCESS, "FAIL": pb.IBTP_RECEIPT_FAILURE, "RB": pb.IBTP_RECEIPT_ROLLBACK}
 
+func (r *runner) acct(n *core.Node, name string) *core.Account {
+	if strings.HasPrefix(name, "@admin") && !strings.HasPrefix(name, "@admin-") {
+		var i int
+		fmt.Sscanf(name, "@admin%d", &i)
+		return n.Admins()[i%len(n.Admins())]
+	}
+	return n.Account(strings.TrimPrefix(name, "@"))
+}
+
 func (r *runner) build(n *core.Node, t Tx) (pb.Transaction, map[string]interface{}) {
-	from := n.Account(t.From)
+	from := r.acct(n, t.From)
 	switch t.K {
 	case "ibtp":
 		src, dst := full(n, t.Src), full(n, t.Dst)
@@ -234,19 +247,44 @@ func (r *runner) build(n *core.Node, t Tx) (pb.Transaction, map[string]interface
 			case strings.HasPrefix(a, "i32:"):
 				v, _ := strconv.Atoi(a[4:])
 				args = append(args, pb.Int32(int32(v)))
+			case strings.HasPrefix(a, "f64:"):
+				args = append(args, &pb.Arg{Type: pb.Arg_F64, Value: []byte(a[4:])})
+			case strings.HasPrefix(a, "i64:"):
+				args = append(args, &pb.Arg{Type: pb.Arg_I64, Value: []byte(a[4:])})
 			case strings.HasPrefix(a, "bytes:"):
 				args = append(args, pb.Bytes([]byte(a[6:])))
+			case strings.HasPrefix(a, "bxhproof:"): // a well-formed proof of another BitXHub carrying a transaction status
+				v, _ := strconv.Atoi(a[9:])
+				b, _ := (&pb.BxhProof{TxStatus: pb.TransactionStatus(v)}).Marshal()
+				args = append(args, pb.Bytes(b))
+			case strings.HasPrefix(a, "ibtpbytes:"): // a well-formed marshalled IBTP chainA:svc1 -> chainB:svc1
+				v, _ := strconv.Atoi(a[10:])
+				ib := n.NewIBTP(full(n, "chainA:svc1"), full(n, "chainB:svc1"), uint64(v), pb.IBTP_INTERCHAIN, 0, []byte("p"))
+				b, _ := ib.Marshal()
+				args = append(args, pb.Bytes(b))
 			case strings.HasPrefix(a, "svc:"):
-				args = append(args, pb.String(full(n, a[4:])))
+				x := a[4:]
+				if i := strings.Index(x, "-"); i > 0 { // ibtp id "<svc>-<full dst>-<idx>"
+					args = append(args, pb.String(full(n, x[:i])+x[i:]))
+				} else {
+					args = append(args, pb.String(full(n, x)))
+				}
+			case a == "@proposal":
+				args = append(args, pb.String(r.lastProposal))
+			case strings.HasPrefix(a, "@"):
+				args = append(args, pb.String(r.acct(n, a).Addr.String()))
 			default:
 				args = append(args, pb.String(a))
 			}
 		}
-		addr := map[string]*types.Address{"interchain": constant.InterchainContractAddr.Address(), "txmgr": constant.TransactionMgrContractAddr.Address(),
-			"service": constant.ServiceMgrContractAddr.Address(), "interbroker": constant.InterBrokerContractAddr.Address()}[t.C]
+		addr := lockstep.ContractsByName[t.C].Address()
 		tx := n.InvokeTx(from, addr, t.M, args...)
-		return tx, map[string]interface{}{"k": "invoke", "from": from.Addr.String(), "to": addr.String(), "cls": "direct", "badsig": false, "m": t.M,
-			"amtKind": "none", "amtNum": 0, "amt": ""}
+		cls := "direct"
+		if t.Role != "" {
+			cls = "surface"
+		}
+		return tx, map[string]interface{}{"k": "invoke", "from": from.Addr.String(), "to": addr.String(), "cls": cls, "badsig": false, "m": t.M, "c": t.C,
+			"role": t.Role, "promoted": t.Promoted, "amtKind": "none", "amtNum": 0, "amt": ""}
 	}
 }
 
@@ -409,6 +447,10 @@ func (r *runner) gov(st Step) bool {
 		return true
 	}
 	pid := a.ProposalIDOf(res.Receipts[0])
+	r.lastProposal = pid
+	if st.N == -1 {
+		return true
+	}
 	for i := 0; i < len(a.Admins()); i++ {
 		if s := a.ProposalStatus(pid); s != "proposed" && s != "" {
 			break
@@ -429,6 +471,9 @@ func (r *runner) gov(st Step) bool {
 func (r *runner) run(dir string) {
 	p := r.plan
 	opt := core.Options{NumAdmins: 4, Balance: "100000000", GasPrice: 1, EnableAudit: p.Audit, Seed: p.Seed, Quiet: true, ProofType: p.Proof}
+	if p.FreeGas {
+		opt.GasPrice = -1
+	}
 	pair, err := lockstep.New(opt, dir)
 	if err != nil {
 		panic(err)
@@ -566,6 +611,12 @@ func (r *runner) run(dir string) {
 			}
 		case "gov":
 			if !r.gov(st) {
+				return
+			}
+		case "open":
+			st2 := st
+			st2.N = -1 // submit only
+			if !r.gov(st2) {
 				return
 			}
 		case "restart":
@@ -799,6 +850,88 @@ func genTimed(rng *rand.Rand, name string) *Plan {
 	return p
 }
 
+// surface scenarios (C17): live context, then direct invocations of every exported method by every role
+func genSurface(rng *rand.Rand, name string, surf []lockstep.MethodInfo, frac int) *Plan {
+	// "CHAINA" differs from "chainA" only in letter case: its admin is the "admin of another chain"
+	p := &Plan{Name: name, Seed: 1, Proof: "serial", Chains: []string{"chainA", "chainB", "CHAINA"}, NSvc: 1, Black: map[string]string{}, Audit: rng.Intn(2) == 0, FreeGas: true}
+	// live context: an accepted request (BEGIN), a finished one, an open proposal
+	p.Steps = append(p.Steps, Step{Step: "block", Txs: []Tx{{K: "ibtp", Src: "chainA:svc1", Dst: "chainB:svc1", Idx: 1, Typ: "REQ", T: 0, From: "u1"}}})
+	p.Steps = append(p.Steps, Step{Step: "block", Txs: []Tx{{K: "ibtp", Src: "chainA:svc1", Dst: "chainB:svc1", Idx: 1, Typ: "OK", From: "u2"}}})
+	p.Steps = append(p.Steps, Step{Step: "block", Txs: []Tx{{K: "ibtp", Src: "chainA:svc1", Dst: "chainB:svc1", Idx: 2, Typ: "REQ", T: 0, From: "u1"}}})
+	p.Steps = append(p.Steps, Step{Step: "open", M: "FreezeService", Obj: "chainB:svc1"})
+	strs := []string{"chainA", "chainB", "chainA:svc1", "chainB:svc1", "svc:chainA:svc1", "svc:chainB:svc1", "svc:chainA:svc1-1356:chainB:svc1-2",
+		"svc:chainA:svc1-1356:chainB:svc1-1", "@proposal", "@admin0", "@admin1", "@admin-chainA", "@admin-chainB", "@u3",
+		"0x00000000000000000000000000000000000000a2", "register", "update", "freeze", "activate", "logout", "pause", "unpause", "clear", "bind",
+		"available", "frozen", "approve", "reject", "governanceAdmin", "appchainAdmin", "auditAdmin", "vpNode", "nvpNode", "ServiceMgr", "AppchainMgr", "SimpleMajority", "a > 0.5 * t",
+		"name-chainA", "CallContract", "ETH", "x", ""}
+	ids := []string{"chainA", "chainA:svc1", "svc:chainA:svc1", "svc:chainA:svc1-1356:chainB:svc1-2", "svc:chainA:svc1-1356:chainB:svc1-1", "@proposal", "@admin-chainA", "chainB:svc1"}
+	arg := func(t string) (string, bool) {
+		switch t {
+		case "string":
+			if rng.Intn(2) == 0 {
+				return ids[rng.Intn(len(ids))], true
+			}
+			return strs[rng.Intn(len(strs))], true
+		case "[]uint8":
+			return []string{"bytes:", "bytes:x", "bytes:{}", "bytes:[]", "bxhproof:1", "bxhproof:2", "bxhproof:3", "ibtpbytes:3", "ibtpbytes:1"}[rng.Intn(9)], true
+		case "uint64":
+			return "u64:" + []string{"0", "1", "2", "5"}[rng.Intn(4)], true
+		case "int32":
+			return "i32:" + []string{"0", "1", "2", "3"}[rng.Intn(4)], true
+		case "int64":
+			return "i64:" + []string{"0", "1"}[rng.Intn(2)], true
+		case "bool":
+			return "bool:" + []string{"true", "false"}[rng.Intn(2)], true
+		case "float64":
+			return "f64:" + []string{"1", "4.5"}[rng.Intn(2)], true
+		}
+		return "", false // not constructible through the transaction encoding
+	}
+	roles := []struct{ role, acct string }{{"outsider", "u3"}, {"otheradmin", "admin-CHAINA"}, {"otheradmin", "admin-chainB"}, {"govadmin", "@admin1"}}
+
+	var calls []Tx
+	for _, mi := range surf {
+		for _, ro := range roles {
+			if rng.Intn(frac) != 0 {
+				continue
+			}
+			tries := 2
+			if !mi.Promoted && !strings.HasPrefix(mi.M, "Get") && !strings.HasPrefix(mi.M, "Is") && !strings.HasPrefix(mi.M, "Count") {
+				tries = 10
+			}
+			for try := 0; try < tries; try++ {
+				var args []string
+				ok := true
+				for _, t := range mi.In {
+					a, c := arg(t)
+					if !c {
+						ok = false
+						a = "x"
+					}
+					if ro.role == "otheradmin" {
+						// the admin of another chain is aimed at chain A's objects only (its own chain's are its to govern)
+						a = strings.Replace(strings.Replace(a, "chainB", "chainA", -1), "CHAINA", "chainA", -1)
+					}
+					args = append(args, a)
+				}
+				_ = ok
+				calls = append(calls, Tx{K: "invoke", From: ro.acct, C: mi.C, M: mi.M, Args: args, Role: ro.role, Promoted: mi.Promoted})
+			}
+		}
+	}
+	rng.Shuffle(len(calls), func(i, j int) { calls[i], calls[j] = calls[j], calls[i] })
+	for i := 0; i < len(calls); i += 3 {
+		j := i + 3
+		if j > len(calls) {
+			j = len(calls)
+		}
+		p.Steps = append(p.Steps, Step{Step: "block", Txs: calls[i:j]})
+	}
+	return p
+}
+
+var surfCache []lockstep.MethodInfo
+
 func main() {
 	plansFile := flag.String("plans", "", "")
 	outDir := flag.String("out", ".", "")
@@ -806,6 +939,7 @@ func main() {
 	n := flag.Int("n", 20, "")
 	start := flag.Int("start", 0, "")
 	mode := flag.String("mode", "", "group = one-to-many heavy")
+	frac := flag.Int("frac", 1, "surface mode: call one in frac (method, role) combinations")
 	nrep := flag.Int("replicas", 0, "extra replicas executing the same blocks (C01)")
 	flag.Parse()
 	var plans []*Plan
@@ -820,7 +954,12 @@ func main() {
 	} else {
 		rng := rand.New(rand.NewSource(*seed))
 		for i := 0; i < *n; i++ {
-			if *mode == "timed" {
+			if *mode == "surface" {
+				if surfCache == nil {
+					surfCache = lockstep.Surface()
+				}
+				plans = append(plans, genSurface(rng, fmt.Sprintf("surface-%d-%d", *seed, i), surfCache, *frac))
+			} else if *mode == "timed" {
 				plans = append(plans, genTimed(rng, fmt.Sprintf("timed-%d-%d", *seed, i)))
 			} else {
 				plans = append(plans, genPlan(rng, fmt.Sprintf("rand-%d-%d", *seed, i), *mode))
